@@ -56,7 +56,7 @@ def null_overrides(hist):
     return out
 
 
-def realise(hist, eol=b"\n", xref_w=(1, 4, 2), zero_type_width=False, nulls=True):
+def realise(hist, eol=b"\n", xref_w=(1, 4, 2), zero_type_width=False, nulls=True, empty_tail=None):
     """zero_type_width: cross-reference streams that list only type-1 entries (a later revision, no object stream,
     one /Index range per run so that no free filler entry is needed) are written with /W [0 n m] - the type field has
     width 0 and every entry defaults to type 1 (ISO 32000-1 table 17)."""
@@ -92,6 +92,11 @@ def realise(hist, eol=b"\n", xref_w=(1, 4, 2), zero_type_width=False, nulls=True
                              gens={p + 2: 1 for p in r["defs"] if p not in r["packed"]} if (zero_type_width == 1 and k > 1) else None,
                              xref_w=_special_w(xref_w, zero_type_width) if (zero_type_width and k > 1 and r["form"] == "stream"
                                                                              and not r["packed"] and r["split"]) else xref_w))
+    if empty_tail:
+        # one more incremental update that defines nothing (it only repeats the trailer): a classic section `xref 0 0`, or a
+        # cross-reference stream that lists nothing, not even itself (`/Index []`, no entry data)
+        revs.append(Revision({}, form=empty_tail, eol=eol, omit_self=True, split_index=True, xref_w=xref_w,
+                             xref_pack=["flate", "png", "none"][int(zero_type_width)], trailer_style=int(zero_type_width)))
     return build(revs)[0]
 
 
@@ -189,6 +194,25 @@ def direction_a1(ck, dev):
                     else:
                         ck.violation("objids:" + m["kind"], "section %d (%s) reports in-use numbers %r, it defines %r"
                                      % (i, m["kind"], ids, sorted(m["inuse"])), replay)
+            # the same history followed by an update that defines nothing: one more section that reports no object
+            # number, everything else as before (every fifth behaviour; alternately as classic section and as stream)
+            if variant % 5 == 0 or ck.tier == "thorough":
+                tail = "stream" if (variant // 5) % 2 == 0 or ck.tier == "thorough" and variant % 2 else "table"
+                data3 = realise(r["hist"], eol, w, zw, empty_tail=tail)
+                try:
+                    doc3 = open_doc(data3, r["caching"], bufsiz)
+                    got3 = [fetch(doc3, p + 2) for (p, _) in calls]
+                    ids3 = [sorted(x.get_objids()) for x in doc3.xrefs]
+                    root3 = doc3.catalog.get("Rev")
+                except Exception as e:
+                    got3, ids3, root3 = "exception:%s: %s" % (type(e).__name__, e), None, None
+                want3 = [tuple(want) for (_, want) in calls]
+                wids3 = [[]] + [sorted(m["inuse"]) for m in r["secs"]]
+                if got3 != want3 or ids3 != wids3 or root3 != r["root"]:
+                    ck.violation("empty-update:" + tail,
+                                 "after an update that defines nothing (%s): getobj %r (want %r), in-use numbers per section %r "
+                                 "(want %r), catalog of revision %r (want %r)" % (tail, got3, want3, ids3, wids3, root3, r["root"]),
+                                 dict(replay, empty_tail=tail))
             root = doc.catalog.get("Rev")
             info = doc.info[0].get("Rev") if doc.info else None
             last = r["hist"][-1]
@@ -494,7 +518,7 @@ def replay(path):
         except Exception as e:
             print("find_xref raised", type(e).__name__)
     elif "hist" in c:
-        data = realise(c["hist"], c["eol"], tuple(c["w"]), c.get("zero_type_width", False))
+        data = realise(c["hist"], c["eol"], tuple(c["w"]), c.get("zero_type_width", False), empty_tail=c.get("empty_tail"))
         d = open_doc(data, c["caching"], c["bufsiz"])
         for (p, want) in c["calls"]:
             print("getobj(%d) -> %r   expected %r" % (p + 2, fetch(d, p + 2), tuple(want)))
